@@ -187,3 +187,153 @@ Proof.
         intros Hc0. specialize (C2' Hc0). unfold fset. destruct (u_key u0 =? u_key u) eqn:Ek; auto.
         apply Nat.eqb_eq in Ek. rewrite Ek in C2'. rewrite Hp in C2'. inversion C2'; subst. rewrite Nat.eqb_refl in E. discriminate.
 Qed.
+
+Lemma EI_set_ep_benign s e u u' :
+  EI s -> nth_error (p_eps s) e = Some u -> same_shape u u' -> EI (set_ep s e u').
+Proof. intros H Hn Hs. unfold EI, set_ep, set_eps; cbn. eapply ei_benign; eauto. Qed.
+
+Lemma same_shape_refl u : same_shape u u.
+Proof. repeat split. Qed.
+
+Lemma adopt_core_eps s e g :
+  p_pool (ep_adopt s e g) = p_pool s /\ p_dials (ep_adopt s e g) = p_dials s /\ p_epoch (ep_adopt s e g) = p_epoch s
+  /\ p_now (ep_adopt s e g) = p_now s /\ p_handles (ep_adopt s e g) = p_handles s
+  /\ (forall u, nth_error (p_eps s) e = Some u ->
+        exists u', same_shape u u' /\ u_sent u' = u_sent u /\ u_gen u' = u_gen u /\ u_dialer u' = u_dialer u
+                   /\ p_eps (ep_adopt s e g) = upd (p_eps s) e u').
+Proof.
+  unfold ep_adopt. destruct (nth_error (p_eps s) e) as [u|] eqn:Hn.
+  2:{ repeat split. intros u H; discriminate. }
+  destruct (u_cs_closed u).
+  { repeat split. intros u0 H; inversion H; subst u0. exists u. repeat split.
+    clear -Hn. revert e Hn. induction (p_eps s) as [|x r IH]; intros [|e] H; cbn in *; try discriminate.
+    - inversion H; reflexivity.
+    - f_equal. now apply IH. }
+  set (s1 := if negb (u_owner u =? g) && negb match u_tuples u with [] => true | _ :: _ => false end
+             then forget_all (retain_all s g (u_tuples u)) (u_owner u) (u_tuples u) else s).
+  assert (C1 : same_core s s1).
+  { unfold s1. destruct (negb (u_owner u =? g) && _); [repeat split|apply same_core_refl]. }
+  destruct C1 as (P1&P2&P3&P4&P5&P6).
+  destruct (match u_drain u with Some g' => g' =? g | None => false end).
+  - cbn. rewrite P1, P2, P3, P4, P5, P6. repeat split.
+    intros u0 H; inversion H; subst u0. eexists. split; [|split; [|split; [|split; [|reflexivity]]]]; repeat split.
+  - destruct (u_drain u); cbn; rewrite ?P1, ?P2, ?P3, ?P4, ?P5, ?P6; repeat split;
+      intros u0 H; inversion H; subst u0; (eexists; split; [|split; [|split; [|split; [|reflexivity]]]]; repeat split).
+Qed.
+
+Lemma EI_adopt s e g : EI s -> EI (ep_adopt s e g).
+Proof.
+  intros H. destruct (adopt_core_eps s e g) as (P&_&_&_&_&E).
+  destruct (nth_error (p_eps s) e) as [u|] eqn:Hn.
+  - destruct (E u eq_refl) as (u'&Hs&_&_&_&Eq). unfold EI. rewrite P, Eq. eapply ei_benign; eauto.
+  - unfold ep_adopt. now rewrite Hn.
+Qed.
+
+Lemma EI_create s k d g out : EI s -> p_pool s k = None -> EI (fst (ep_create s k d g out)).
+Proof.
+  intros H Hk. unfold ep_create. destruct out as [|[|[|n]]]; cbn; try exact H;
+    (unfold EI; cbn; apply ei_create; auto).
+Qed.
+
+Lemma EI_reuse s e g u : EI s -> nth_error (p_eps s) e = Some u -> EI (fst (ep_reuse s e g u)).
+Proof.
+  intros H Hn. unfold ep_reuse. cbn [fst]. apply EI_adopt. eapply EI_set_ep_benign; eauto. repeat split.
+Qed.
+
+Lemma pool_after_remove_close s e k :
+  p_pool (ep_close (set_pool s (fset (p_pool s) k None)) e) k = None.
+Proof.
+  unfold ep_close. cbn [p_eps set_pool]. destruct (nth_error (p_eps s) e) as [u|]; [|cbn; unfold fset; now rewrite Nat.eqb_refl].
+  destruct (u_closed u); [cbn; unfold fset; now rewrite Nat.eqb_refl|].
+  destruct (close_tail_core (set_pool s (fset (p_pool s) k None)) u) as (P1&_).
+  unfold set_ep, set_eps. cbn [p_pool]. rewrite P1. cbn. unfold fset. now rewrite Nat.eqb_refl.
+Qed.
+
+Lemma EI_goc s k d g out : EI s -> EI (fst (ep_goc s k d g out)).
+Proof.
+  intros H. unfold ep_goc.
+  destruct (p_pool s k) as [e|] eqn:Hk.
+  2:{ now apply EI_create. }
+  destruct (nth_error (p_eps s) e) as [u|] eqn:Hn.
+  2:{ destruct H as (A&_). destruct (A k e Hk) as (u&H0&_). congruence. }
+  assert (Hku : u_key u = k /\ u_closed u = false).
+  { destruct H as (A&_). destruct (A k e Hk) as (u0&H0&H1&H2&_). rewrite Hn in H0. inversion H0; subst. auto. }
+  destruct Hku as (Hku&Hcl).
+  assert (Hrm : EI (fst (ep_create (ep_close (set_pool s (fset (p_pool s) k None)) e) k d g out))).
+  { apply EI_create; [|apply pool_after_remove_close]. rewrite <- Hku. now apply EI_remove_close. }
+  destruct (u_failed u).
+  - destruct (is_expired u (p_now s)); [exact Hrm|exact H].
+  - destruct (stale s u); [exact Hrm|]. now apply EI_reuse.
+Qed.
+
+Lemma EI_fold_eps (f : pstate -> nat -> pstate) :
+  (forall s e, EI s -> EI (f s e)) -> forall l s, EI s -> EI (fold_left f l s).
+Proof. intros Hf l. induction l as [|x r IH]; intros s H; cbn; auto. Qed.
+
+Lemma EI_pstep s o : EI s -> EI (fst (pstep s o)).
+Proof.
+  intros H. destruct o as [k d g out|h out|h t|d| | |dt]; cbn [pstep].
+  - now apply EI_goc.
+  - destruct (nth_error (p_handles s) h) as [e|]; [|exact H].
+    destruct (nth_error (p_eps s) e) as [u|] eqn:Hn; [|exact H].
+    destruct (u_dead u); [exact H|].
+    destruct ((0 <? u_conn_closes u) || (out =? 1)); cbn [fst].
+    + apply EI_retire. eapply EI_set_ep_benign; eauto. repeat split.
+    + eapply EI_set_ep_benign; eauto. repeat split.
+  - destruct (nth_error (p_handles s) h) as [e|]; [|exact H].
+    destruct (nth_error (p_eps s) e) as [u|] eqn:Hn; [|exact H].
+    destruct (u_cs_closed u); [exact H|]. cbn [fst].
+    eapply EI_core; [apply retain_all_core|]. eapply EI_set_ep_benign; eauto. repeat split.
+  - cbn [fst]. apply EI_fold_eps.
+    + intros s0 e H0. destruct (nth_error (p_eps s0) e) as [u|]; auto.
+      destruct (u_registered u && (u_dialer u =? d) && negb (survives u)); auto. now apply EI_retire.
+    + exact H.
+  - cbn [fst].
+    set (s1 := fold_left _ _ s).
+    assert (H1 : EI s1).
+    { unfold s1. apply EI_fold_eps; auto.
+      intros s0 e H0. destruct (nth_error (p_eps s0) e) as [u|] eqn:Hn; auto.
+      destruct (opt_is (p_pool s0 (u_key u)) e) eqn:Ho; auto.
+      apply EI_remove_close; auto.
+      destruct H0 as (A&_). unfold opt_is in Ho. destruct (p_pool s0 (u_key u)) as [e0|] eqn:Hk; [|discriminate].
+      apply Nat.eqb_eq in Ho; subst e0. destruct (A _ _ Hk) as (u0&H0&_&H2&_). rewrite Hn in H0. inversion H0; subst. exact H2. }
+    unfold EI; cbn. destruct H1 as (A&B). split.
+    + intros k e Hk. destruct (A k e Hk) as (u&H0&H1&H2&H3).
+      rewrite nth_error_map, H0. cbn. eexists. split; [reflexivity|]. cbn. auto.
+    + intros e u0. rewrite nth_error_map. destruct (nth_error (p_eps s1) e) as [u|] eqn:Hn; cbn; [|discriminate].
+      intros Hu; inversion Hu; subst u0. cbn. apply (B e u Hn).
+  - cbn [fst]. apply EI_fold_eps; auto.
+    intros s0 e H0. destruct (nth_error (p_eps s0) e) as [u|] eqn:Hn; auto.
+    destruct (opt_is (p_pool s0 (u_key u)) e) eqn:Ho; cbn [andb]; auto.
+    destruct (is_expired u (p_now s0) || negb (gen_current s0 u) && negb (survives u)); auto.
+    apply EI_remove_close; auto.
+    destruct H0 as (A&_). unfold opt_is in Ho. destruct (p_pool s0 (u_key u)) as [e0|] eqn:Hk; [|discriminate].
+    apply Nat.eqb_eq in Ho; subst e0. destruct (A _ _ Hk) as (u0&H0&_&H2&_). rewrite Hn in H0. inversion H0; subst. exact H2.
+  - exact H.
+Qed.
+
+Lemma EI_p0 : EI p0.
+Proof. split; [intros k e H; discriminate|intros [|e] u H; discriminate]. Qed.
+
+Lemma EI_prun ops : EI (prun ops).
+Proof.
+  unfold prun. generalize EI_p0. generalize p0. induction ops as [|o r IH]; intros s H; cbn; auto.
+  apply IH. now apply EI_pstep.
+Qed.
+
+(* ------------------------------------------------------------------------------------------ *)
+(* the property theorems                                                                        *)
+(* ------------------------------------------------------------------------------------------ *)
+(* every dialled endpoint: transport closed at most once, exactly when the endpoint is closed; an endpoint
+   that is no longer in the pool under its key has been closed *)
+Lemma C13_close_once_proof :
+  forall ops e u, nth_error (p_eps (prun ops)) e = Some u -> u_failed u = false ->
+    u_conn_closes u <= 1
+    /\ (u_conn_closes u = 1 <-> u_closed u = true)
+    /\ (p_pool (prun ops) (u_key u) <> Some e -> u_conn_closes u = 1).
+Proof.
+  intros ops e u Hn Hf. destruct (EI_prun ops) as (_&B). destruct (B e u Hn) as (B1&B2).
+  rewrite Hf in B1. destruct (u_closed u) eqn:Hc; rewrite B1.
+  - repeat split; auto.
+  - repeat split; try lia; try discriminate. intros Hp. exfalso. apply Hp. now apply B2.
+Qed.
